@@ -235,4 +235,15 @@ def resolve (cwd : List String) (p : PPath) : List String :=
 /-- `parent_parts[-1] if parent_parts else ""` for an entry directly below the root -/
 def rootNameOf (root : PPath) : String := root.parts.getLast?.getD ""
 
+/-- `iter_files(root)` for a root given by some spelling — repaired behaviour: the walk does not
+    consult the name of the directory it starts in (that name is `""` for `.`, `subprojects` for
+    `/x/subprojects`, `..` for `sub/..`: a property of the spelling, not of the project). -/
+def iterFilesFromRoot (σ : List (String × Node) → List (String × Node)) (cfg : WalkCfg) (_root : PPath)
+    (cs : List (String × Node)) : List (List String) :=
+  iterFilesReordered σ cfg "" cs
+
+/-- previous behaviour: the Meson rule saw the last component of the spelling -/
+def iterFilesFromRootOld (cfg : WalkCfg) (root : PPath) (cs : List (String × Node)) : List (List String) :=
+  iterFiles cfg (rootNameOf root) cs
+
 end Model
